@@ -1,6 +1,8 @@
 import TorrentVerif.Proofs.Recheck
 import TorrentVerif.Proofs.RecheckFull
 import TorrentVerif.Model.ExceptEq
+import TorrentVerif.Proofs.EndToEndV2
+import TorrentVerif.Proofs.EndToEndEdit
 /-
   C05 — recheck reports exactly 100 % for intact content of any well-formed metafile.
   Property theorems only; helper lemmas live in `Proofs/Recheck.lean`.
@@ -364,5 +366,320 @@ example :
     Impl.recheck RF.Ex.h1 toyH 2 2 (Impl.encode RF.Ex.hybridMeta) ⟨.parent, [104]⟩ RF.Ex.v2Disk
       = .ok ([(true, 4), (true, 3), (true, 3)], 10, 10) := by
   decide +kernel
+
+end TorrentVerif.Props.C05
+
+/-! ### end to end: a metafile created from a tree, rechecked against that same tree
+
+  `Impl.createV1` / `createV2Class` / `createHybridClass` / `createAsm` (`Model/Creators`) write
+  the bytes; `Impl.recheck` (`Model/RecheckFull`) reads them back with the tree itself as disk.
+  `E2E.treeBytes t` is the number of payload bytes in the tree, `E2E.PlainNamed t` says that no
+  entry is named `.` or `..` (nor empty, nor contains `/`): what every directory listing
+  satisfies.  The content argument is the payload root, passed under the torrent's name
+  (`⟨.root, o.name⟩`), or a parent directory named `pname ≠ o.name` that holds the payload under
+  the torrent's name (`⟨.parent, pname⟩`). -/
+namespace TorrentVerif.Props.C05
+open TorrentVerif TorrentVerif.E2E TorrentVerif.Ex.G7
+
+/-- v1 (`TorrentFile`, plain or `align`), directory or single file.  For every content tree
+    with distinct, proper entry names and at least one byte, every piece length `> 0`, every
+    option record, root path and enumeration order, and any `H1` with 20-byte digests: the
+    creator succeeds, and the whole `Checker` on the written bytes, with the tree itself as
+    disk, succeeds with every verdict positive and `matched = consumed = total > 0` — exactly
+    100 % — for the root argument and for every differently named parent.
+    `total` is the number of bytes of the tree; with `align` on a directory it is the length
+    of the piece-aligned stream (every file followed by its padding), which the padding
+    entries of `files` add to the payload.
+    With `align` two side conditions are needed, both about a directory entry literally named
+    `.pad` (the directory the padding entries `.pad/<n>` point into):
+    `hpad` — the tree has no top-level entry `.pad`: otherwise a padding entry may name a real
+    file, whose bytes the checker then reads instead of zeros (see `pad_dir_breaks_align`);
+    `hpadInner` (root argument only) — an entry of the tree named like the torrent has no entry
+    `.pad`: otherwise `_is_parent` may find more of the described top-level names in there and
+    `find_root` takes that entry for the payload. -/
+theorem recheck_of_created_v1 (o : CreateOpts) (align : Bool) (H1 H : Bytes → Bytes) (B hs : Nat)
+    (hhs : 0 < hs) (hH1 : ∀ x, (H1 x).length = 20)
+    (enum : List (List (Bytes × Bytes)) → List (List (Bytes × Bytes)))
+    (henum : ∀ l, (enum l).Perm l) (pre : Bytes) (t : Node)
+    (hwn : Spec.WellNamed t) (hplain : PlainNamed t) (hpl : 0 < o.pieceLength)
+    (hbytes : 0 < treeBytes t)
+    (hpad : align = true → RF.child t Impl.sPad = none)
+    (hpadInner : align = true →
+      ∀ inner, RF.child t o.name = some inner → RF.child inner Impl.sPad = none) :
+    ∃ r b total, Impl.createV1 o align H1 enum pre t = some (r, b) ∧
+      0 < total ∧ treeBytes t ≤ total ∧
+      (align = false ∨ (∃ d, t = .file d) → total = treeBytes t) ∧
+      (∀ es, t = .dir es → align = true → total = (Spec.alignedStream o.pieceLength
+          ((Spec.sortedFiles pre t).map (·.2))).length) ∧
+      (∃ vs, Impl.recheck H1 H B hs b ⟨.root, o.name⟩ t = .ok (vs, total, total) ∧
+        ∀ v ∈ vs, v.1 = true) ∧
+      (∀ pname, pname ≠ o.name →
+        ∃ vs, Impl.recheck H1 H B hs b ⟨.parent, pname⟩ t = .ok (vs, total, total) ∧
+          ∀ v ∈ vs, v.1 = true) := by
+  cases t with
+  | file d =>
+    obtain ⟨r, b, h0⟩ := written_v1_some o (.single d.length)
+      ((chunks o.pieceLength d).map H1).flatten
+    have h : Impl.createV1 o align H1 enum pre (.file d) = some (r, b) := by
+      rw [createV1_file o align H1 enum pre d hpl]; exact h0
+    rw [treeBytes_file] at hbytes
+    refine ⟨r, b, d.length, h, hbytes, by rw [treeBytes_file]; exact Nat.le_refl _,
+      fun _ => (treeBytes_file d).symm, fun es e => (by cases e), ?_, ?_⟩
+    · exact recheck_created_v1_file o align H1 H B hs hhs hH1 enum pre d hpl r b h _
+        (Or.inl ⟨rfl, rfl⟩)
+    · intro pname hp
+      exact recheck_created_v1_file o align H1 H B hs hhs hH1 enum pre d hpl r b h _
+        (Or.inr ⟨rfl, hp⟩)
+  | dir es =>
+    obtain ⟨r, b, h⟩ := createV1_dir_some o align H1 enum henum pre es hwn
+      (sortedFiles_ne_nil pre _ hbytes)
+    have hge := v1Stream_length_ge align o.pieceLength pre (.dir es)
+    refine ⟨r, b, _, h, Nat.lt_of_lt_of_le hbytes hge, hge, ?_, ?_, ?_, ?_⟩
+    · intro hc
+      rcases hc with rfl | ⟨d, e⟩
+      · exact v1Stream_length_plain o.pieceLength pre (.dir es)
+      · cases e
+    · intro es' _ hal; rw [hal]; rfl
+    · exact recheck_created_v1_dir o align H1 H B hs hhs hH1 enum henum pre es hwn hplain hpl hpad
+        r b h _ (Or.inl ⟨rfl, rfl⟩) (fun _ => hpadInner)
+    · intro pname hp
+      exact recheck_created_v1_dir o align H1 H B hs hhs hH1 enum henum pre es hwn hplain hpl hpad
+        r b h _ (Or.inr ⟨rfl, hp⟩) (fun hk => by cases hk)
+
+/-- met by: the example tree `r` (nested, stored unsorted, an empty file, an empty directory,
+    15 bytes, piece length 4), rooted at `/d`, enumerated backwards, toy SHA-1 with 20-byte
+    digests: 15 of 15 bytes, via the root `r` and via a parent named `h` -/
+example : ∃ r b, Impl.createV1 exOpts false Toy.toyH20 List.reverse [100] exTree = some (r, b) ∧
+    (∃ vs, Impl.recheck Toy.toyH20 Toy.toyH 2 1 b ⟨.root, [114]⟩ exTree = .ok (vs, 15, 15) ∧
+      ∀ v ∈ vs, v.1 = true) ∧
+    (∃ vs, Impl.recheck Toy.toyH20 Toy.toyH 2 1 b ⟨.parent, [104]⟩ exTree = .ok (vs, 15, 15) ∧
+      ∀ v ∈ vs, v.1 = true) := by
+  obtain ⟨r, b, total, h, _, _, htot, _, hroot, hpar⟩ := recheck_of_created_v1 exOpts false
+    Toy.toyH20 Toy.toyH 2 1 (by decide) (by intro x; simp [Toy.toyH20]) List.reverse
+    List.reverse_perm [100] exTree exTree_wellNamed exTree_plainNamed (by decide)
+    (by rw [exTree_bytes]; decide) (fun e => by cases e) (fun e => by cases e)
+  have ht : total = 15 := by rw [htot (Or.inl rfl), exTree_bytes]
+  subst ht
+  exact ⟨r, b, h, hroot, hpar [104] (by decide)⟩
+
+/-- the same tree piece-aligned (the tree has no `.pad` entry and no entry named `r`): the
+    payload grows to the 20 bytes of the aligned stream, all of which verify; and a single
+    file of 9 bytes with `align` requested: 9 of 9 -/
+example : (∃ r b total, Impl.createV1 exOpts true Toy.toyH20 id [100] exTree = some (r, b) ∧
+      15 ≤ total ∧
+      ∃ vs, Impl.recheck Toy.toyH20 Toy.toyH 2 1 b ⟨.root, [114]⟩ exTree = .ok (vs, total, total) ∧
+        ∀ v ∈ vs, v.1 = true) ∧
+    (∃ r b, Impl.createV1 exOpts true Toy.toyH20 id [100] exFile = some (r, b) ∧
+      ∃ vs, Impl.recheck Toy.toyH20 Toy.toyH 2 1 b ⟨.root, [114]⟩ exFile = .ok (vs, 9, 9) ∧
+        ∀ v ∈ vs, v.1 = true) := by
+  constructor
+  · obtain ⟨r, b, total, h, _, hge, _, _, hroot, _⟩ := recheck_of_created_v1 exOpts true
+      Toy.toyH20 Toy.toyH 2 1 (by decide) (by intro x; simp [Toy.toyH20]) id (fun _ => .refl _)
+      [100] exTree exTree_wellNamed exTree_plainNamed (by decide) (by rw [exTree_bytes]; decide)
+      (fun _ => exTree_no_pad) (fun _ inner hi => by rw [exTree_no_namesake] at hi; cases hi)
+    rw [exTree_bytes] at hge
+    exact ⟨r, b, total, h, hge, hroot⟩
+  · obtain ⟨r, b, total, h, _, _, htot, _, hroot, _⟩ := recheck_of_created_v1 exOpts true
+      Toy.toyH20 Toy.toyH 2 1 (by decide) (by intro x; simp [Toy.toyH20]) id (fun _ => .refl _)
+      [100] exFile trivial trivial (by decide) (by decide) (fun _ => rfl)
+      (fun _ inner hi => by cases hi)
+    have ht : total = 9 := by rw [htot (Or.inr ⟨_, rfl⟩)]; decide
+    subst ht
+    exact ⟨r, b, h, hroot⟩
+
+/-- WITNESS that `hpad` is needed (the real `TorrentFile(align=True)` + `Checker` agree: 50 %).
+    The tree `r` holds `.pad/1` (one byte) and `a` (three bytes), piece length 4.  The padding
+    entry written after `a` is `.pad/1` — the path of the real file — so the checker reads that
+    file's byte where the hasher put a zero: piece 1 fails, 4 of 8 bytes.  All other hypotheses
+    of `recheck_of_created_v1` hold (no entry is named like the torrent). -/
+theorem pad_dir_breaks_align :
+    ∃ (o : CreateOpts) (t : Node) (r : BVal) (b : Bytes),
+      Spec.WellNamed t ∧ PlainNamed t ∧ 0 < o.pieceLength ∧ 0 < treeBytes t ∧
+      (RF.child t Impl.sPad).isSome = true ∧ (RF.child t o.name).isNone = true ∧
+      Impl.createV1 o true Toy.toyH20 id [114] t = some (r, b) ∧
+      Impl.recheck Toy.toyH20 Toy.toyH 2 1 b ⟨.root, o.name⟩ t
+        = .ok ([(true, 4), (false, 4)], 4, 8) :=
+  ⟨Ex.plainOpts, Ex.padTree, _, _, Ex.padTree_wellNamed, Ex.padTree_plainNamed, by decide, by decide,
+    by decide, by decide, Ex.padTree_created, by decide +kernel⟩
+
+/-- the padding entry after `a` (3 of 4 bytes) is `.pad/1`, and `.pad/1` is a real file -/
+example : Spec.fileBytes Ex.padTree [Impl.sPad, natDec (gap 4 3)] = some [7] := by decide +kernel
+
+/-- WITNESS that `hpadInner` is needed (the real tool agrees: 25 %; the hybrid creators behave
+    alike on this tree: 3 of 8 bytes, 37.5 %).  The tree `r` holds `a` and a directory `r`
+    with `.pad`, `a`, `r`; piece-aligned.  The described top-level names are `a`, `r` and
+    `.pad` (from the padding entries): two of them exist in the payload, all three in its
+    entry `r`, so `find_root` takes `r/r` for the payload: 4 of 16 bytes.  Through a parent
+    named `h` the same metafile gives 16 of 16.  All other hypotheses hold (no top-level
+    `.pad`). -/
+theorem pad_in_namesake_misleads_find_root :
+    ∃ (o : CreateOpts) (t : Node) (r : BVal) (b : Bytes),
+      Spec.WellNamed t ∧ PlainNamed t ∧ 0 < o.pieceLength ∧ 0 < treeBytes t ∧
+      (RF.child t Impl.sPad).isNone = true ∧
+      ((RF.child t o.name).bind (RF.child · Impl.sPad)).isSome = true ∧
+      Impl.createV1 o true Toy.toyH20 id [114] t = some (r, b) ∧
+      Impl.recheck Toy.toyH20 Toy.toyH 2 1 b ⟨.root, o.name⟩ t
+        = .ok ([(true, 4), (false, 4), (false, 4), (false, 4)], 4, 16) ∧
+      Impl.recheck Toy.toyH20 Toy.toyH 2 1 b ⟨.parent, [104]⟩ t
+        = .ok ([(true, 4), (true, 4), (true, 4), (true, 4)], 16, 16) :=
+  ⟨Ex.plainOpts, Ex.innerTree, _, _, Ex.innerTree_wellNamed, Ex.innerTree_plainNamed, by decide,
+    by decide, by decide, by decide, Ex.innerTree_created, by decide +kernel, by decide +kernel⟩
+
+/-- `.pad` exists below the entry `r` but not at the top: three of the described top-level
+    names are found in `r/r`, two in `r` -/
+example : (RF.child Ex.innerTree [114]).map (fun n => Impl.countTops n [[97], Impl.sPad, [114]]) = some 3 ∧
+    Impl.countTops Ex.innerTree [[97], Impl.sPad, [114]] = 2 := by decide
+
+/-- v2 (`TorrentFileV2`, and `TorrentAssembler` with `meta_version="2"`), directory or single
+    file.  Block size `B > 0`, piece length `2^j · B`, any `H` with `hs`-byte digests
+    (`hs > 0`; 32 for SHA-256), any `H1`.  For every content tree with distinct, proper entry
+    names and at least one byte, any options and enumeration order: both creators succeed and
+    write the same bytes, and the whole `Checker` on these bytes with the tree itself as disk
+    reports every piece as verifying, `matched = consumed =` number of bytes of the tree `> 0`
+    — exactly 100 % — for the root argument and for every differently named parent.
+    `hname`: for a single file the torrent's name (the file's own name) is a proper file name.
+    `hcoll`: two files of more than one piece with the same BEP 52 root have the same piece
+    layer — true unless `H` collides; needed because `piece layers` is keyed by root. -/
+theorem recheck_of_created_v2 (o : CreateOpts) (H1 H : Bytes → Bytes) (B hs j : Nat)
+    (hhs : 0 < hs) (hH : ∀ x, (H x).length = hs) (hB : 0 < B) (hpl : o.pieceLength = 2 ^ j * B)
+    (enum : List (Bytes × Impl.FTree) → List (Bytes × Impl.FTree)) (henum : ∀ l, (enum l).Perm l)
+    (t : Node) (hwn : Spec.WellNamed t) (hplain : PlainNamed t)
+    (hname : ∀ d, t = .file d → Spec.plainName o.name = true)
+    (hcoll : ∀ x ∈ Spec.allFiles [] t, ∀ y ∈ Spec.allFiles [] t,
+      2 ^ j * B < x.2.length → 2 ^ j * B < y.2.length →
+      Spec.root H B hs x.2 = Spec.root H B hs y.2 →
+      (Spec.pieceLayer H B hs j x.2).flatten = (Spec.pieceLayer H B hs j y.2).flatten)
+    (hbytes : 0 < treeBytes t) :
+    ∃ r b, Impl.createV2Class o H B hs enum t = some (r, b) ∧
+      Impl.createAsm false o H H1 B hs enum t = some (r, b) ∧
+      (∃ vs, Impl.recheck H1 H B hs b ⟨.root, o.name⟩ t = .ok (vs, treeBytes t, treeBytes t) ∧
+        ∀ v ∈ vs, v.1 = true) ∧
+      (∀ pname, pname ≠ o.name →
+        ∃ vs, Impl.recheck H1 H B hs b ⟨.parent, pname⟩ t = .ok (vs, treeBytes t, treeBytes t) ∧
+          ∀ v ∈ vs, v.1 = true) := by
+  obtain ⟨r, b, h⟩ := createV2Class_some o H B hs enum t
+  have hc := hcoll_of_spec H B hs j hB enum henum t hcoll
+  refine ⟨r, b, h, ?_, ?_, ?_⟩
+  · rw [createAsm_false_eq o H H1 B hs (2 ^ j) hB (Nat.two_pow_pos j) hpl]; exact h
+  · exact recheck_created_v2class o H1 H B hs (2 ^ j) hhs hH hB (Nat.two_pow_pos j) hpl enum henum t
+      hwn hplain hname hc hbytes r b h _ (Or.inl ⟨rfl, rfl⟩)
+  · intro pname hp
+    exact recheck_created_v2class o H1 H B hs (2 ^ j) hhs hH hB (Nat.two_pow_pos j) hpl enum henum t
+      hwn hplain hname hc hbytes r b h _ (Or.inr ⟨rfl, hp⟩)
+
+/-- met by: the example tree, blocks of 2 bytes, 2 blocks per piece (`j = 1`), toy SHA-256 with
+    1-byte digests, enumerated backwards; and a single file `r` of 9 bytes -/
+example : (∃ r b, Impl.createV2Class exOpts Toy.toyH 2 1 List.reverse exTree = some (r, b) ∧
+      Impl.createAsm false exOpts Toy.toyH Toy.toyH1 2 1 List.reverse exTree = some (r, b) ∧
+      (∃ vs, Impl.recheck Toy.toyH1 Toy.toyH 2 1 b ⟨.root, [114]⟩ exTree = .ok (vs, 15, 15) ∧
+        ∀ v ∈ vs, v.1 = true) ∧
+      (∃ vs, Impl.recheck Toy.toyH1 Toy.toyH 2 1 b ⟨.parent, [104]⟩ exTree = .ok (vs, 15, 15) ∧
+        ∀ v ∈ vs, v.1 = true)) ∧
+    (∃ r b, Impl.createV2Class exOpts Toy.toyH 2 1 id exFile = some (r, b) ∧
+      ∃ vs, Impl.recheck Toy.toyH1 Toy.toyH 2 1 b ⟨.root, [114]⟩ exFile = .ok (vs, 9, 9) ∧
+        ∀ v ∈ vs, v.1 = true) := by
+  constructor
+  · obtain ⟨r, b, h1, h2, hroot, hpar⟩ := recheck_of_created_v2 exOpts Toy.toyH1 Toy.toyH 2 1 1
+      (by decide) (by intro x; simp [Toy.toyH]) (by decide) rfl List.reverse List.reverse_perm
+      exTree exTree_wellNamed exTree_plainNamed (fun d e => by cases e)
+      (exTree_hcoll Toy.toyH 2 1 1) (by rw [exTree_bytes]; decide)
+    rw [exTree_bytes] at hroot hpar
+    exact ⟨r, b, h1, h2, hroot, hpar [104] (by decide)⟩
+  · obtain ⟨r, b, h1, _, hroot, _⟩ := recheck_of_created_v2 exOpts Toy.toyH1 Toy.toyH 2 1 1
+      (by decide) (by intro x; simp [Toy.toyH]) (by decide) rfl id (fun _ => .refl _)
+      exFile trivial trivial (fun _ _ => by decide)
+      (by intro x hx y hy _ _ _
+          simp only [exFile, Spec.allFiles, List.mem_singleton] at hx hy
+          rw [hx, hy])
+      (by decide)
+    have hb : treeBytes exFile = 9 := by decide
+    rw [hb] at hroot
+    exact ⟨r, b, h1, hroot⟩
+
+/-- hybrid (`TorrentFileHybrid`, and `TorrentAssembler` with `meta_version="3"` when `H1` has
+    20-byte digests), directory or single file: the same statement — a hybrid metafile is
+    rechecked through its v2 part, so `total` is the number of bytes of the tree (the padding
+    entries of `files` do not count).
+    One more side condition, for the root argument only — `hpadInner`: an entry of the tree
+    named like the torrent has no entry named `.pad`.  `_is_parent` counts the first path
+    components of `files` (among them `.pad`, from the padding entries) below the payload and
+    below that entry; with a `.pad` in there it can find more of them, and `find_root` then
+    takes the entry for the payload (see `pad_in_namesake_misleads_find_root`). -/
+theorem recheck_of_created_hybrid (o : CreateOpts) (H1 H : Bytes → Bytes) (B hs j : Nat)
+    (hhs : 0 < hs) (hH : ∀ x, (H x).length = hs) (hB : 0 < B) (hpl : o.pieceLength = 2 ^ j * B)
+    (enum : List (Bytes × Impl.FTree) → List (Bytes × Impl.FTree)) (henum : ∀ l, (enum l).Perm l)
+    (t : Node) (hwn : Spec.WellNamed t) (hplain : PlainNamed t)
+    (hname : ∀ d, t = .file d → Spec.plainName o.name = true)
+    (hcoll : ∀ x ∈ Spec.allFiles [] t, ∀ y ∈ Spec.allFiles [] t,
+      2 ^ j * B < x.2.length → 2 ^ j * B < y.2.length →
+      Spec.root H B hs x.2 = Spec.root H B hs y.2 →
+      (Spec.pieceLayer H B hs j x.2).flatten = (Spec.pieceLayer H B hs j y.2).flatten)
+    (hbytes : 0 < treeBytes t)
+    (hpadInner : ∀ inner, RF.child t o.name = some inner → RF.child inner Impl.sPad = none) :
+    ∃ r b, Impl.createHybridClass o H H1 B hs enum t = some (r, b) ∧
+      ((∀ x, (H1 x).length = 20) → Impl.createAsm true o H H1 B hs enum t = some (r, b)) ∧
+      (∃ vs, Impl.recheck H1 H B hs b ⟨.root, o.name⟩ t = .ok (vs, treeBytes t, treeBytes t) ∧
+        ∀ v ∈ vs, v.1 = true) ∧
+      (∀ pname, pname ≠ o.name →
+        ∃ vs, Impl.recheck H1 H B hs b ⟨.parent, pname⟩ t = .ok (vs, treeBytes t, treeBytes t) ∧
+          ∀ v ∈ vs, v.1 = true) := by
+  obtain ⟨r, b, h⟩ := createHybridClass_some o H H1 B hs (2 ^ j) hB (Nat.two_pow_pos j) hpl enum t
+  have hc := hcoll_of_spec H B hs j hB enum henum t hcoll
+  refine ⟨r, b, h, ?_, ?_, ?_⟩
+  · intro h20
+    rw [createAsm_true_eq o H H1 B hs (2 ^ j) hB (Nat.two_pow_pos j) hpl h20]; exact h
+  · exact recheck_created_hybrid o H1 H B hs (2 ^ j) hhs hH hB (Nat.two_pow_pos j) hpl enum henum t
+      hwn hplain hname hc hbytes r b h _ (Or.inl ⟨rfl, rfl⟩) (fun _ => hpadInner)
+  · intro pname hp
+    exact recheck_created_hybrid o H1 H B hs (2 ^ j) hhs hH hB (Nat.two_pow_pos j) hpl enum henum t
+      hwn hplain hname hc hbytes r b h _ (Or.inr ⟨rfl, hp⟩) (fun hk => by cases hk)
+
+/-- met by: the example tree (it has no entry named `r`), both hybrid creators, toy hashes with
+    1- and 20-byte digests: 15 of 15 bytes (the 5 padding bytes of the v1 part do not count) -/
+example : ∃ r b, Impl.createHybridClass exOpts Toy.toyH Toy.toyH20 2 1 id exTree = some (r, b) ∧
+    Impl.createAsm true exOpts Toy.toyH Toy.toyH20 2 1 id exTree = some (r, b) ∧
+    (∃ vs, Impl.recheck Toy.toyH20 Toy.toyH 2 1 b ⟨.root, [114]⟩ exTree = .ok (vs, 15, 15) ∧
+      ∀ v ∈ vs, v.1 = true) ∧
+    (∃ vs, Impl.recheck Toy.toyH20 Toy.toyH 2 1 b ⟨.parent, [104]⟩ exTree = .ok (vs, 15, 15) ∧
+      ∀ v ∈ vs, v.1 = true) := by
+  obtain ⟨r, b, h1, h2, hroot, hpar⟩ := recheck_of_created_hybrid exOpts Toy.toyH20 Toy.toyH 2 1 1
+    (by decide) (by intro x; simp [Toy.toyH]) (by decide) rfl id (fun _ => .refl _)
+    exTree exTree_wellNamed exTree_plainNamed (fun d e => by cases e)
+    (exTree_hcoll Toy.toyH 2 1 1) (by rw [exTree_bytes]; decide)
+    (fun inner hi => by rw [exTree_no_namesake] at hi; cases hi)
+  rw [exTree_bytes] at hroot hpar
+  exact ⟨r, b, h1, h2 (by intro x; simp [Toy.toyH20]), hroot, hpar [104] (by decide)⟩
+
+/-- An edit never changes what recheck reports.  For EVERY byte string `b` that pyben decodes
+    (own or foreign encoder, any key order, any version, intact or damaged content, well-formed
+    or not) and every edit request that `edit_torrent` accepts, the whole `Checker` on the
+    rewritten file (`pyben.dump` of the edited value) gives exactly what it gives on `b`, for
+    every content argument and disk: the same verdicts and counters — or the same error.  In
+    particular a result `.ok res` stays `.ok res`.  (The `Checker` reads `name`,
+    `piece length`, `meta version`, `pieces`, `files`, `length`, `file tree` and
+    `piece layers` only; property C07 says the edit leaves them alone; decoded dictionaries
+    have unique keys and the edit keeps them unique, so the rewritten bytes decode to the
+    edited value.) -/
+theorem recheck_after_edit (H1 H : Bytes → Bytes) (B hs : Nat) (b : Bytes) (mf mf' : BVal)
+    (hb : Impl.loads b = some mf) (req : EditReq) (he : Impl.editTorrent mf req = .ok mf')
+    (arg : RF.ContentArg) (disk : RF.Disk) :
+    Impl.recheck H1 H B hs (Impl.encode mf') arg disk = Impl.recheck H1 H B hs b arg disk ∧
+    ∀ res, Impl.recheck H1 H B hs b arg disk = .ok res →
+      Impl.recheck H1 H B hs (Impl.encode mf') arg disk = .ok res := by
+  have h := recheck_edit_eq H1 H B hs b mf mf' hb req he arg disk
+  exact ⟨h, fun res hr => by rw [h, hr]⟩
+
+/-- met by: the bytes of the v1 example metafile; the comment is set, the trackers replaced and
+    the web seeds cleared: still 7 of 7 bytes via the parent `h` -/
+example : ∃ mf', Impl.editTorrent RF.Ex.v1Meta
+      { comment := .str [99], announce := .list [[120], [121]], urlList := .cleared } = .ok mf' ∧
+    Impl.recheck RF.Ex.h1 toyH 2 2 (Impl.encode mf') ⟨.parent, [104]⟩ RF.Ex.v1Disk
+      = .ok ([(true, 4), (true, 3)], 7, 7) := by
+  obtain ⟨mf', h⟩ : ∃ mf', Impl.editTorrent RF.Ex.v1Meta
+      { comment := .str [99], announce := .list [[120], [121]], urlList := .cleared } = .ok mf' :=
+    ⟨_, rfl⟩
+  refine ⟨mf', h, ?_⟩
+  exact (recheck_after_edit RF.Ex.h1 toyH 2 2 (Impl.encode RF.Ex.v1Meta) RF.Ex.v1Meta mf'
+    (loads_encode_uniq _ (by decide)) _ h ⟨.parent, [104]⟩ RF.Ex.v1Disk).2 _ (by decide +kernel)
 
 end TorrentVerif.Props.C05
